@@ -375,8 +375,13 @@ def r4_path_rooting(ctx, rep):
     py = ctx.py
     fields = schema(py, "ProjectSettings")
     np = py.func("ProjectSettings.normalise_paths")
-    t = ast.unparse(np)
-    ok = "self.directory = Path(directory).absolute()" in t
+    dirs = [v for _, v in astq.assignments(np, "self.directory") if v is not None]
+    ok = bool(dirs) and all(any(isinstance(c, ast.Call) and isinstance(c.func, ast.Attribute) and c.func.attr in ("absolute", "resolve")
+                                for c in ast.walk(v)) for v in dirs)
+    first_dir = min([st.lineno for st, _ in astq.assignments(np, "self.directory")] or [0])
+    others = [st.lineno for st in ast.walk(np) if isinstance(st, ast.Assign) and isinstance(st.targets[0], ast.Attribute)
+              and ast.unparse(st.targets[0]) != "self.directory" and "self.directory" in ast.unparse(st.value)]
+    ok = ok and (not others or first_dir < min(others))
     rep.ob("normalise_paths: the project directory is made absolute first", ok, "", py.nloc(np))
     n = 0
     for st in ast.walk(np):
